@@ -9,6 +9,7 @@ Argument conventions (read off mp.py `_get_big_qn`, `compress`, `_push_cano`, `_
   QR mode:  M = U @ V.T  with U orthonormal for system "L" (QR) and V orthonormal for system "R" (RQ);
   eigh_qn(dm, qnbigl, qnbigr, qntot, system): dm is the reduced density matrix on the `system` side.
 """
+from vk.symx.harness import guarded
 import itertools
 import zlib
 
@@ -913,7 +914,7 @@ def enumerate_cases(run):
 
 def check(run):
     from props import C18_kernel
-    C18_kernel.prove(run)
+    guarded(run, C18_kernel.prove)
     cases = enumerate_cases(run)
     batch = len(cases) if run.tier == "quick" else 3000
     order = np.random.default_rng(run.seed).permutation(len(cases))     # balance long and short cases over the pool
